@@ -253,6 +253,9 @@ fn calculate_path(
     bufs: &mut CurveBuffers,
     optimized_len: &mut f64,
 ) {
+    // Clear first so that an empty list does not leave a previous path behind
+    bufs.path.clear();
+
     if points.is_empty() {
         return;
     }
@@ -264,7 +267,6 @@ fn calculate_path(
         ..
     } = bufs;
 
-    path.clear();
     *optimized_len = 0.0;
 
     vertices.clear();
